@@ -18,3 +18,8 @@ func (nc *netConn) LocalAddr() net.Addr {
 	}
 	return websocketAddr{}
 }
+
+// closeConn closes the connection after a deadline fired during an active call.
+func (nc *netConn) closeConn() {
+	nc.c.close()
+}
